@@ -17,13 +17,17 @@ CLAUSES = (
     'the same set, every hold_point store by put_workflow_hold_cycle_point; '
     'restart reloads tasks_to_hold and the hold point and re-applies it; the '
     'function that wipes the workflow_params table re-inserts the hold point '
-    'from live state. Not decided: interleavings with spawning over '
+    'from live state; a task is marked waiting_on_job_prep (which '
+    'by-passes the queue and the readiness / is_held tests) only at the '
+    'four listed sites. Not decided: interleavings with spawning over '
     'histories.')
 
 TP = 'task_pool'
 
 
 def check(c):
+    from rules._shared import job_prep_writer_rules
+    job_prep_writer_rules(c, 'C06.prep-bypass')
     # ---- gates
     rr = c.func('task_proxy', 'TaskProxy.is_ready_to_run')
     rets = [n for n in c.idx.walk(rr.node) if isinstance(n, ast.Return)]
@@ -207,6 +211,13 @@ def check(c):
 
 
 VARIANTS = [
+    ('restart-straight-to-prep', 'cylc/flow/task_pool.py',
+     '''                # Re-prepare same submit.
+                itask.submit_num -= 1
+''', '''                # Re-prepare same submit.
+                itask.submit_num -= 1
+                itask.waiting_on_job_prep = True
+''', 'C06.prep-bypass'),
     ('ready-ignores-held', 'cylc/flow/task_proxy.py',
      '''        if self.state.is_held:
             # A held task is not ready to run.
